@@ -351,33 +351,173 @@ theorem procPart_bound (max : Nat) (part : Bytes) : ∀ (acc : Bytes) (sync : Bo
           · exact Or.inl h
           · right; omega
 
-theorem run_bound (max : Nat) : ∀ (chunks : List Bytes) (acc : Bytes) (sync : Bool),
+/-- `runChunks` is `run` with the outputs grouped per chunk: the groups are labelled with the
+    chunks, in order, and concatenating the groups gives the reader's output -/
+theorem runChunks_spec (max : Nat) : ∀ (chunks : List Bytes) (acc : Bytes) (sync : Bool),
+    (runChunks max acc sync chunks).map Prod.fst = chunks ∧
+    (runChunks max acc sync chunks).flatMap Prod.snd = run max acc sync chunks
+  | [], _, _ => by simp [runChunks, run]
+  | c :: cs, acc, sync => by
+    have ih := runChunks_spec max cs (procPart max acc sync c).2.1 (procPart max acc sync c).2.2
+    simp only [runChunks, run, List.map_cons, List.flatMap_cons, ih.1, ih.2, and_self]
+
+def isMsg : Out → Bool
+  | .msg _ => true
+  | .memErr => false
+
+/-- processing one part delivers at most as many messages as the part has newlines -/
+theorem procPart_msgs_le_newlines (max : Nat) (part : Bytes) : ∀ (acc : Bytes) (sync : Bool),
+    ((procPart max acc sync part).1.filter isMsg).length ≤ part.count NL := by
+  induction hn : part.length using Nat.strongRecOn generalizing part with
+  | _ n ih =>
+    intro acc sync
+    subst hn
+    unfold procPart
+    split
+    · simp only
+      split <;> simp [isMsg]
+    · rename_i pre residual hs
+      have ⟨hp, _⟩ := splitNL_some _ _ _ hs
+      have hlen : residual.length < part.length := splitNL_some_length _ _ _ hs
+      have hc : part.count NL = pre.count NL + (1 + residual.count NL) := by
+        rw [hp, List.count_append, List.count_cons]; simp; omega
+      have ho : ((if sync = true then [] else [Out.msg (acc ++ pre)]).filter isMsg).length ≤ 1 := by
+        cases sync <;> simp [List.filter_cons, isMsg]
+      by_cases hr : residual.isEmpty
+      · simp only [hr, ↓reduceIte]; omega
+      · simp only [hr]
+        have := ih residual.length hlen residual rfl [] false
+        simp only [Bool.false_eq_true, ↓reduceIte, List.filter_append, List.length_append]
+        omega
+
+theorem runChunks_bound (max : Nat) : ∀ (chunks : List Bytes) (acc : Bytes) (sync : Bool),
     fits max acc.length = true →
-    ∀ m, Out.msg m ∈ run max acc sync chunks → max = 0 ∨ ∃ c ∈ chunks, m.length ≤ max + c.length
-  | [], _, _, _, m, h => by simp [run] at h
-  | c :: cs, acc, sync, hacc, m, h => by
-    simp only [run, List.mem_append] at h
+    ∀ p ∈ runChunks max acc sync chunks,
+      (∀ m, Out.msg m ∈ p.2 → max = 0 ∨ m.length ≤ max + p.1.length) ∧
+      (p.2.filter isMsg).length ≤ p.1.count NL
+  | [], _, _, _, p, h => by simp [runChunks] at h
+  | c :: cs, acc, sync, hacc, p, h => by
+    simp only [runChunks, List.mem_cons] at h
     have hp := procPart_bound max c acc sync hacc
-    rcases h with h | h
-    · rcases hp.2 m h with h0 | h1
-      · exact Or.inl h0
-      · exact Or.inr ⟨c, by simp, h1⟩
-    · rcases run_bound max cs _ _ hp.1 m h with h0 | ⟨c', hc', hb⟩
-      · exact Or.inl h0
-      · exact Or.inr ⟨c', by simp [hc'], hb⟩
+    rcases h with rfl | h
+    · exact ⟨hp.2, procPart_msgs_le_newlines max c acc sync⟩
+    · exact runChunks_bound max cs _ _ hp.1 p h
 
-/-- A delivered message never exceeds the limit by more than one chunk (the chunk that carried
-its newline). -/
-theorem delivered_bound (max : Nat) (chunks : List Bytes) (m : Bytes)
+/-- **delivered_bound**: a delivered message never exceeds the limit by more than *its final
+    chunk*: `receive_message()` returns a message only while it processes the chunk that carried
+    the message's newline (`runChunks` groups the outputs by that chunk; a chunk gives rise to at
+    most as many messages as it has newlines), and the message is at most `max` plus the length
+    of that very chunk long. -/
+theorem delivered_bound (max : Nat) (chunks : List Bytes) :
+    (runChunks max [] false chunks).map Prod.fst = chunks ∧
+    (runChunks max [] false chunks).flatMap Prod.snd = run max [] false chunks ∧
+    ∀ p ∈ runChunks max [] false chunks,
+      (∀ m, Out.msg m ∈ p.2 → max = 0 ∨ m.length ≤ max + p.1.length) ∧
+      (p.2.filter isMsg).length ≤ p.1.count NL :=
+  ⟨(runChunks_spec max chunks [] false).1, (runChunks_spec max chunks [] false).2,
+   runChunks_bound max chunks [] false (fits_nil max)⟩
+
+/-- the weaker form (some chunk of the stream), kept as a corollary -/
+theorem delivered_bound_any (max : Nat) (chunks : List Bytes) (m : Bytes)
     (h : Out.msg m ∈ run max [] false chunks) :
-    max = 0 ∨ ∃ c ∈ chunks, m.length ≤ max + c.length :=
-  run_bound max chunks [] false (fits_nil max) m h
+    max = 0 ∨ ∃ c ∈ chunks, m.length ≤ max + c.length := by
+  obtain ⟨h1, h2, h3⟩ := delivered_bound max chunks
+  rw [← h2, List.mem_flatMap] at h
+  obtain ⟨p, hp, hm⟩ := h
+  rcases (h3 p hp).1 m hm with h0 | hb
+  · exact Or.inl h0
+  · refine Or.inr ⟨p.1, ?_, hb⟩
+    rw [← h1]
+    exact List.mem_map_of_mem hp
 
-/-- tie to the source: what `frame` appends and what `receive_message` searches for (facts
-regenerated from /repo on every run) are the model's newline -/
-theorem facts_frame : ∀ m : Bytes, m ++ Facts.C06.frameSuffix = frame m := by
-  intro m; rfl
-theorem facts_separator : Facts.C06.separator = [NL] := by decide
+/-- non-vacuity: limit 3; the 2-byte message is delivered while its final chunk (6 bytes) is
+    processed; the over-long message that arrives in one chunk is delivered too (7 ≤ 3 + 8) -/
+example : runChunks 3 [] false [[97], [98, 10, 1, 2, 3], [4, 5, 6, 7, 10, 9, 9, 10]] =
+    [([97], []), ([98, 10, 1, 2, 3], [.msg [97, 98]]),
+     ([4, 5, 6, 7, 10, 9, 9, 10], [.msg [1, 2, 3, 4, 5, 6, 7], .msg [9, 9]])] := by
+  simp [runChunks, procPart, splitNL, NL, fits]
+
+/-! ## Outside the property: a reader cancelled while it waits
+
+The text quantifies over chunkings, limits and interleavings of arrival with the reader's calls;
+it does not speak about a `receive_message()` call that is *cancelled* while waiting.  `parts`
+is local to the call, so the bytes it had buffered are forgotten and the next call returns only
+the rest of that segment.  Recorded as an assumption (props/C06.json); the three statements
+below document the behaviour, they are not part of the property. -/
+
+/-- without cancellation `runEv` is `run` -/
+theorem cancel_free (max : Nat) : ∀ (chunks : List Bytes) (acc : Bytes) (sync : Bool),
+    runEv max acc sync (chunks.map Ev.chunk) = run max acc sync chunks
+  | [], _, _ => by simp [runEv, run]
+  | c :: cs, acc, sync => by
+    simp only [List.map_cons, runEv, run, cancel_free max cs]
+
+/-- the effect of a cancellation is exactly: the bytes buffered by the cancelled call are
+    forgotten, the `synchronizing` flag is kept -/
+theorem cancel_forgets_buffer (max : Nat) : ∀ (cs : List Bytes) (acc : Bytes) (sync : Bool)
+    (es : List Ev),
+    runEv max acc sync (cs.map Ev.chunk ++ Ev.cancel :: es) =
+      run max acc sync cs ++ runEv max [] (stateAfter max acc sync cs).2 es
+  | [], _, _, _ => by simp [runEv, run, stateAfter]
+  | c :: cs, acc, sync, es => by
+    simp only [List.map_cons, List.cons_append, runEv, run, stateAfter,
+      cancel_forgets_buffer max cs, List.append_assoc]
+
+/-- the full-strength statement with cancellation allowed ... -/
+def delivered_is_segment_cancel_full : Prop :=
+  ∀ (max : Nat) (cs : List Bytes) (es : List Bytes) (m : Bytes),
+    Out.msg m ∈ runEv max [] false (cs.map Ev.chunk ++ Ev.cancel :: es.map Ev.chunk) →
+    m ∈ (segments (cs ++ es).flatten).1
+
+/-- ... fails: `ab` buffered, call cancelled, `c\n` arrives: `c` is delivered, the segment was
+    `abc` -/
+theorem cancel_truncates :
+    runEv 0 [] false [.chunk [97, 98], .cancel, .chunk [99, 10]] = [.msg [99]] ∧
+    ¬ delivered_is_segment_cancel_full := by
+  have w : runEv 0 [] false [.chunk [97, 98], .cancel, .chunk [99, 10]] = [.msg [99]] := by
+    simp [runEv, procPart, splitNL, NL, fits]
+  refine ⟨w, ?_⟩
+  intro h
+  have := h 0 [[97, 98]] [[99, 10]] [99] (by
+    simp only [List.map_cons, List.map_nil, List.cons_append, List.nil_append]
+    rw [w]; simp)
+  revert this
+  decide
+
+/-! ## Facts: what the real `NewlineFramer` did on small grids (regenerated from /repo on every
+    run by `tools/facts/c06.py`, which only *runs* the public API), reproduced by the model -/
+
+/-- decoding of an outcome in the generated tables -/
+def outOf : Option (List UInt8) → Out
+  | some m => .msg m
+  | none => .memErr
+
+/-- what `frame` appends is the model's newline, for every message; and the sampled calls of the
+    real `frame` (newline / NUL inside, empty) are the model's -/
+theorem facts_frame : (∀ m : Bytes, m ++ Facts.C06.frameSuffix = frame m) ∧
+    ∀ r ∈ Facts.C06.frameTable, frame r.1 = r.2 := by
+  refine ⟨fun m => rfl, by decide⟩
+
+/-- which of the 256 byte values ends a message: the one-byte chunks `a`, b, `c`, newline were
+    fed to the real framer for every b; the model gives the same outcomes, and `a` came out on
+    its own exactly for b = newline -/
+theorem facts_separator : Facts.C06.terminators = [NL] ∧
+    ∀ r ∈ Facts.C06.sepTable, run 0 [] false [[97], [r.1], [99], [NL]] = r.2.map outOf := by
+  refine ⟨by decide, ?_⟩
+  intro r hr
+  rw [run_eq_trun]
+  revert r
+  decide +kernel
+
+/-- the size test of the real framer on the grid (limits 0..3 × 0..5 buffered bytes × newline in
+    its own chunk / in the same chunk / behind a residual / followed by the next segment /
+    tail of a dropped segment) is the model's -/
+theorem facts_limit :
+    ∀ r ∈ Facts.C06.limitTable, run r.1 [] false r.2.1 = r.2.2.map outOf := by
+  intro r hr
+  rw [run_eq_trun]
+  revert r
+  decide +kernel
 
 -- Non-vacuity: concrete, non-trivial instances of the hypotheses / conclusions.
 example : run 5 [] false [[97,98,10,99], [100,10], [1,2,3,4,5,6], [7,10,8,10]]
